@@ -126,6 +126,12 @@ func init() {
 			end.OmitGrpcMessage = true
 			c.Attr("~grpc-message", "omitted (message only in the binary status)")
 		}
+		if (tp == vanguard.ProtocolGRPC || tp == vanguard.ProtocolGRPCWeb) && len(det) == 0 && (msg == "100% sure" || msg == "a%zzb%") && c.Choose("grpc-message-not-percent-encoded", 2) == 1 {
+			// a peer that writes the message without percent-encoding it: the '%' does not start an
+			// escape. Readers must not fail on that, let alone lose the status.
+			end.RawGrpcMessage = true
+			c.Attr("~grpc-message", "raw '%' (not percent-encoded)")
+		}
 		call := &mxCall{Base: b, ReqMsgs: req, RespMsgs: resp[:min(pos, len(resp))], End: end, TrailersOnly: pos == 0, Lenient: true}
 		if pos == 0 && c.Choose("compressed-error", 2) == 1 {
 			// the backend compresses what carries its error (error body of a flat protocol,
